@@ -431,6 +431,30 @@ def fuse_comps(t):
                                    else y)
                 if not any(y == el for y in _walk(new_elt)):
                     return ("comp", x[1], new_elt, it[3])
+            # [F(a, b) for a, b in zip([fa(y) for y in Y], [fb(y) for y in
+            # Y])]  ->  [F(fa(y), fb(y)) for y in Y]
+            if isinstance(it, tuple) and it and it[0] == "call" and \
+                    it[1] == "builtins.zip" and len(it[2]) >= 2 and \
+                    not it[3] and all(
+                        isinstance(c, tuple) and c and c[0] == "comp"
+                        and c[1] in ("list", "gen", "tuple")
+                        and len(c[3]) == 1 and not c[3][0][2]
+                        for c in it[2]) and \
+                    len({no_uids(c[3][0][1]) for c in it[2]}) == 1:
+                parts = it[2]
+
+                def sub(y):
+                    if y[0] == "zipelem" and y[2] == parts and \
+                            isinstance(y[1], int) and y[1] < len(parts):
+                        return parts[y[1]][2]
+                    return y
+                new_elt = map_term(x[2], sub)
+                left = [y for y in _walk(new_elt)
+                        if isinstance(y, tuple) and y and (
+                            (y[0] == "zipelem" and y[2] == parts)
+                            or y == ("elem", it))]
+                if not left:
+                    return ("comp", x[1], new_elt, parts[0][3])
         return x
     return map_term(t, f)
 
@@ -860,3 +884,84 @@ def module_constants(prog, t):
                     return ("const", v.value)
         return x
     return map_term(t, f)
+
+
+def one_to_one(t, _depth=0):
+    """The sequence S such that the container / stream ``t`` has exactly one
+    entry per element of S, in S's order, with nothing filtered out - seen
+    through comprehensions without conditions, map(), enumerate(), zip()
+    with a range or with a second one-to-one stream of the same base,
+    dict() / list() / tuple() / iter() / sorted-free wrappers and the
+    .items() / .values() / .keys() views.  None when not recognised.
+    A base sequence is returned as it is (so ``one_to_one(x) == x`` for a
+    parameter or variable)."""
+    if _depth > 12:
+        return None
+    k = t[0]
+    if k in ("param", "var", "attr", "name", "rec"):
+        return t
+    if k == "comp" and len(t[3]) == 1 and not t[3][0][2]:
+        return one_to_one(t[3][0][1], _depth + 1)
+    if k == "mcall" and t[2] in ("items", "values", "keys") and not t[3]:
+        return one_to_one(t[1], _depth + 1)
+    if k == "call":
+        n, a = t[1], t[2]
+        if n in ("builtins.list", "builtins.tuple", "builtins.iter",
+                 "builtins.dict", "builtins.enumerate") and len(a) >= 1:
+            return one_to_one(a[0], _depth + 1)
+        if n == "builtins.map" and len(a) == 2:
+            return one_to_one(a[1], _depth + 1)
+        if n == "builtins.zip" and a:
+            bases = []
+            for x in a:
+                if x[0] == "call" and x[1] in ("builtins.range",
+                                              "itertools.count"):
+                    continue
+                bases.append(one_to_one(x, _depth + 1))
+            if bases and all(b is not None and b == bases[0] for b in bases):
+                return bases[0]
+            return None
+    return None
+
+
+def anon(t):
+    """Forget the names of comprehension variables (the elements are
+    referred to as elem(<iterable>) / idx(<iterable>) inside the term)."""
+    def f(x):
+        if x[0] == "comp" and len(x) >= 4 and isinstance(x[3], tuple):
+            return (x[0], x[1], x[2], tuple(
+                ((),) + tuple(g[1:]) if isinstance(g, tuple) and g else g
+                for g in x[3]))
+        return x
+    return map_term(t, f)
+
+
+def flattened_of(t):
+    """X when ``t`` is the concatenation, in order, of the lists in X:
+    sum(X, []), utils.flatten(X), list(itertools.chain.from_iterable(X)) /
+    chain(*X), np.concatenate(X) / np.hstack(X), [y for x in X for y in x];
+    None otherwise."""
+    while t[0] == "call" and t[1] in ("builtins.list", "builtins.tuple") \
+            and len(t[2]) == 1 and not t[3]:
+        t = t[2][0]
+    while t[0] == "mcall" and t[2] == "tolist" and not t[3]:
+        t = t[1]
+    if t[0] == "call":
+        n, a = t[1], t[2]
+        if n == "builtins.sum" and len(a) == 2 and a[1] == ("list", ()):
+            return a[0]
+        if n == "builtins.sum" and len(a) == 1 and \
+                dict(t[3]).get("start") == ("list", ()):
+            return a[0]
+        if n in ("mokapot.utils.flatten", "numpy.concatenate",
+                 "numpy.hstack", "itertools.chain.from_iterable") and \
+                len(a) == 1:
+            return a[0]
+        if n == "itertools.chain" and len(a) == 1 and a[0][0] == "star":
+            return a[0][1]
+    if t[0] == "comp" and t[1] in ("list", "gen") and len(t[3]) == 2 and \
+            not t[3][0][2] and not t[3][1][2]:
+        outer, inner = t[3][0][1], t[3][1][1]
+        if inner == ("elem", outer) and t[2] == ("elem", inner):
+            return outer
+    return None
